@@ -64,7 +64,9 @@ def gen_requests(rng, mode, nbs, prefix):
                 body = json.dumps(dict(fields, merged=rng.choice(['abc', 5, [1, 2], {'cells': 'x', 'nbformat': 4, 'nbformat_minor': 'y'}])))
             else:
                 body = json.dumps(dict(fields, merged=rng.choice(list(nbs.values()))))
-            reqs.append({'method': 'POST', 'path': prefix + '/api/store', 'body': body, 'model': ['apiStore', kind, extra], 'tag': 'store-' + kind})
+            # the same untrusted names as URL query arguments (what tornado's get_argument would read)
+            query = '?outputfilename=sub/q.ipynb&filename=q2.ipynb&path=../q3.ipynb&out=q4.ipynb' if extra and rng.random() < 0.6 else ''
+            reqs.append({'method': 'POST', 'path': prefix + '/api/store' + query, 'body': body, 'model': ['apiStore', kind, extra], 'tag': 'store-' + kind, 'variant': 'query' if query else 'plain'})
         elif k < 0.86:
             reqs.append({'method': 'POST', 'path': prefix + '/api/closetool', 'body': json.dumps({'exitCode': 0}), 'model': 'apiClose', 'tag': 'close'})
         elif k < 0.93:
@@ -93,7 +95,7 @@ def run(ctx):
     import nbformat
     ctx.cov['rule'] = ('servers in each mode (plain, diff tool, merge tool with/without output file, closable or not, non-root base URL) x sequences '
                        'of 4-8 requests (valid, malformed JSON, missing keys, non-notebook / empty / missing files, unknown paths, store bodies with '
-                       'extra path fields, remote close); full file-tree snapshot around every request; non-trivial = sequence contains a store or an '
+                       'extra path fields (in the JSON body and as URL query arguments), remote close); full file-tree snapshot around every request; non-trivial = sequence contains a store or an '
                        'erroneous request; distinct by (mode, sequence)')
     vlib.audit(ctx, 'NbdimeProofs', THEOREMS)
     rng = ctx.rng
@@ -135,6 +137,8 @@ def run(ctx):
             stopped = False
             for i, (r, res) in enumerate(zip(job['requests'], o['results'])):
                 ctx.count('req:' + r['tag'])
+                if r.get('variant') == 'query':
+                    ctx.count('store-with-query-arguments')
                 data = {'mode': mode, 'params': {k: v for k, v in job['params'].items()}, 'requests': job['requests'][:i + 1], 'index': i, 'status': res['status']}
                 pred = m['ok'][i]
                 changed = sorted(k for k in set(res['before']) | set(res['after']) if res['before'].get(k) != res['after'].get(k))
